@@ -259,6 +259,16 @@ def make_builtins(interp):
                 return True
             if obj.cls is not None:
                 m, _ = obj.cls.lookup(name)
+                from .objects import Property
+                if isinstance(m, Property):
+                    # hasattr evaluates the property: an AttributeError inside the getter means False
+                    try:
+                        interp.getattr(obj, name)
+                        return True
+                    except PyRaise as e:
+                        if e.exc_type == "AttributeError":
+                            return False
+                        raise
                 return m is not None
             return False
         if isinstance(obj, Opaque):
@@ -899,7 +909,7 @@ def make_stub_modules(interp):
         "numbers": StubModule("numbers", {"Number": TypeTag("Number", None), "Real": TypeTag("Real", None), "Integral": TypeTag("Integral", None), "Complex": TypeTag("Complex", None)}),
         "collections": StubModule("collections", {"abc": StubModule("collections.abc", {"Sequence": TypeTag("Sequence", None), "Iterable": TypeTag("Iterable", None), "Callable": TypeTag("Callable", None)}),
                                                   "OrderedDict": TypeTag("dict", lambda *a, **k: dict(*a, **k)), "defaultdict": Opaque("collections.defaultdict")}),
-        "collections.abc": StubModule("collections.abc", {"Sequence": TypeTag("Sequence", None), "Iterable": TypeTag("Iterable", None), "Callable": TypeTag("Callable", None)}),
+        "collections.abc": StubModule("collections.abc", {"Sequence": TypeTag("Sequence", None), "Iterable": TypeTag("Iterable", None), "Callable": TypeTag("Callable", None), "Mapping": TypeTag("dict", None)}),
         "typing": StubModule("typing", {"TYPE_CHECKING": False, "Any": Opaque("Any"), "Callable": TypeTag("Callable", None), "Literal": Opaque("Literal"), "cast": lambda t, v: v}),
         "itertools": StubModule("itertools", {"product": lambda *its, repeat=1: [tuple(p) for p in itertools.product(*[interp.iterate(i) for i in its], repeat=repeat)], "chain": lambda *its: [x for i in its for x in interp.iterate(i)]}),
         "functools": StubModule("functools", {"reduce": Opaque("reduce"), "partial": lambda f, *a, **k: (lambda *b, **kk: interp.call(f, [*a, *b], {**k, **kk})), "wraps": lambda f: (lambda g: g)}),
@@ -1113,7 +1123,7 @@ def ndarray_attr(interp, x: NDArr, name):
             return x.copy()
         return astype
     if name == "view":
-        return lambda *a, **k: x
+        return lambda *a, **k: NDArr(x.buf, list(x.imap), tuple(x.shape))  # a new view object on the same buffer
     if name == "fill":
         return lambda v: x.assign(A.ALL, v)
     if name == "item":
@@ -1139,6 +1149,20 @@ def ndarray_attr(interp, x: NDArr, name):
             if len(shape) == 1 and isinstance(shape[0], (tuple, list)):
                 shape = tuple(shape[0])
             shape = tuple(shape)
+            if sum(1 for d in shape if concrete(d) == -1) == 1:
+                # one dimension is inferred: supported when the remaining dimensions are the trailing ones of the array
+                k = [concrete(d) == -1 for d in shape].index(True)
+                rest = shape[k + 1:]
+                if k == 0 and len(rest) <= x.ndim and all(concrete(compare("==", a, b)) is True or (is_sym(a) and is_sym(b) and a.eq(b)) for a, b in zip(rest, x.shape[x.ndim - len(rest):])):
+                    lead = x.shape[: x.ndim - len(rest)]
+                    if len(lead) == 0:
+                        shape = (1, *rest)
+                    elif len(lead) == 1:
+                        shape = (lead[0], *rest)
+                    else:
+                        raise Unsupported("reshape(-1, ...) that merges several leading axes")
+                else:
+                    raise Unsupported("reshape with an inferred dimension in this position")
             if shape == tuple(x.shape):
                 return x
             # only insertion / removal of axes of length one (a view in NumPy)
